@@ -220,7 +220,7 @@ func ruleC07CteMemo(c *Ctx) {
 		return regNameRe.ReplaceAllString(s, "")
 	}
 	regKey := norm(NewTB().Of(reg.Key).String())
-	paths, err := WalkFunc(thunk, WalkCfg{MaxVisits: 1})
+	paths, err := WalkFunc(thunk, WalkCfg{MaxVisits: 1, Bind: bindFreeVars(regClosure(reg))})
 	if err != nil {
 		c.Unknown("c07.cte-memo", key, c.P.Pos(thunk.Pos()), err.Error())
 		return
